@@ -719,3 +719,46 @@ def contained_in_terms(B: Solid, terms, tol=TOL):
     if unknown:
         return None, 0.0, detail
     return True, worst_clear, detail
+
+
+def frame_mesh(outer, inner, z0, z1):
+    """Closed, outward-oriented mesh of a rectangular frame (ring): the rectangle
+    outer=(x0,y0,x1,y1) minus the through-hole inner=(x0,y0,x1,y1), extruded over [z0,z1].
+    One body, genus 1; the centre of its bounding box is in the hole."""
+    ox0, oy0, ox1, oy1 = outer
+    ix0, iy0, ix1, iy1 = inner
+    o = [(ox0, oy0), (ox1, oy0), (ox1, oy1), (ox0, oy1)]  # ccw
+    i = [(ix0, iy0), (ix1, iy0), (ix1, iy1), (ix0, iy1)]  # ccw
+    V = []
+    for z in (z0, z1):
+        V += [(x, y, z) for x, y in o] + [(x, y, z) for x, y in i]
+    V = np.array(V, float)
+    # indices: bottom outer 0-3, bottom inner 4-7, top outer 8-11, top inner 12-15
+    F = []
+    for k in range(4):
+        k2 = (k + 1) % 4
+        ob, ob2, ib, ib2 = k, k2, 4 + k, 4 + k2
+        ot, ot2, it, it2 = 8 + k, 8 + k2, 12 + k, 12 + k2
+        # top cap (normal +z): quad ot, ot2, it2, it
+        F += [(ot, ot2, it2), (ot, it2, it)]
+        # bottom cap (normal -z)
+        F += [(ob, ib2, ob2), (ob, ib, ib2)]
+        # outer wall (normal outward)
+        F += [(ob, ob2, ot2), (ob, ot2, ot)]
+        # inner wall (normal towards the hole)
+        F += [(ib, it2, ib2), (ib, it, it2)]
+    return V, np.array(F, np.int64)
+
+
+def is_convex(S: Solid, eps=1e-9):
+    """Is the solid bounded by this mesh convex?  (every vertex on the inner side of every
+    face plane; faces are outward oriented)"""
+    T = S.T
+    n = np.cross(T[:, 1] - T[:, 0], T[:, 2] - T[:, 0])
+    nl = np.linalg.norm(n, axis=1)
+    ok = nl > 0
+    n = n[ok] / nl[ok, None]
+    a = T[ok, 0]
+    scale = float(np.linalg.norm(S.hi - S.lo))
+    h = (S.V @ n.T) - _dot(a, n)[None, :]
+    return bool(h.max() <= eps * max(scale, 1.0))
